@@ -101,18 +101,36 @@ Proof.
   eapply only_mutable_fields; eauto. eapply ruid_fresh_derived; eauto.
 Qed.
 
-(* transactions with several operations (all or nothing): a committed one is the run of its
-   operations with every step committing, a failed one changes nothing — so all theorems above hold
-   for histories of multi-operation transactions, e.g. mint + burn + re-mint of one id in ONE transaction *)
-Theorem C43_transactions : forall m ops,
-  (is_ok (snd (tx_step m ops)) = true ->
-     fst (tx_step m ops) = final m ops /\ forall e, In e (run m ops) -> is_ok (snd e) = true) /\
-  (is_ok (snd (tx_step m ops)) = false -> fst (tx_step m ops) = m).
+(* ADMISSION. Every operation is preceded by the auth module's role check (minter / burner /
+   non_fungible_data_updater; `auth` = the caller satisfied it) and by the feature flag fixed at creation
+   (assert_mintable / assert_burnable). A committed operation was admitted, allowed by the flag, and
+   is exactly the store operation `step` that all theorems above speak about — so C43_mint_once etc.
+   hold for every history of admitted calls, whoever the callers are; a refused call changes nothing *)
+Theorem C43_admission : forall cfg m auth o,
+  (is_ok (snd (astep cfg m auth o)) = true ->
+     auth = true /\ astep cfg m auth o = step m o /\
+     (match o with OMint _ | OMintRuid _ => mintable cfg = true | OBurn _ => burnable cfg = true | _ => True end)) /\
+  (is_ok (snd (astep cfg m auth o)) = false -> fst (astep cfg m auth o) = m).
+Proof. exact astep_spec. Qed.
+
+(* transactions with several operations (all or nothing), each with the auth decision for its own
+   method: a committed one is the run of its store operations with every step admitted and committing,
+   a failed one changes nothing — so all theorems above hold for histories of multi-operation
+   transactions, e.g. mint + burn + re-mint of one id in ONE transaction *)
+Theorem C43_transactions : forall cfg m ops,
+  (is_ok (snd (tx_step cfg m ops)) = true ->
+     fst (tx_step cfg m ops) = final m (map snd ops) /\
+     (forall e, In e (run m (map snd ops)) -> is_ok (snd e) = true) /\ Forall (fun ao => fst ao = true) ops) /\
+  (is_ok (snd (tx_step cfg m ops)) = false -> fst (tx_step cfg m ops) = m).
 Proof. exact tx_step_spec. Qed.
 Example C43_same_transaction_remint :
   let m := {| r_idtype := TInteger; r_nfields := 4; r_mutable := [(1, 1%nat); (3, 3%nat)]; r_store := [] |} in
-  tx_step m [OMint [((TInteger, 3), [1; 2; 3; 4])]; OBurn [(TInteger, 3)]; OMint [((TInteger, 3), [1; 2; 3; 4])]] = (m, RErr ELocked).
-Proof. vm_compute. reflexivity. Qed.
+  let cfg := {| mintable := true; burnable := true |} in
+  tx_step cfg m [(true, OMint [((TInteger, 3), [1; 2; 3; 4])]); (true, OBurn [(TInteger, 3)]);
+                 (true, OMint [((TInteger, 3), [1; 2; 3; 4])])] = (m, RErr ELocked)
+  /\ tx_step cfg m [(true, OMint [((TInteger, 3), [1; 2; 3; 4])]); (false, OBurn [(TInteger, 3)])] = (m, RErr EUnauthorized)
+  /\ tx_step {| mintable := false; burnable := true |} m [(true, OMint [])] = (m, RErr ENotMintable).
+Proof. vm_compute. repeat split. Qed.
 
 (* non-vacuity: Integer resource, fields b (index 1) and d (index 3) mutable: mint 1 and 2, burn 1,
    re-mint 1 refused (locked), re-mint 2 refused (exists), string id refused, update of c refused,
@@ -137,6 +155,7 @@ Print Assumptions C43_mint_kind.
 Print Assumptions C43_id_type.
 Print Assumptions C43_only_mutable_fields.
 Print Assumptions C43_update_spec.
+Print Assumptions C43_admission.
 Print Assumptions C43_transactions.
 Print Assumptions C43_ruid_fresh_derived.
 Print Assumptions C43_ruid_ids_distinct.
